@@ -7,7 +7,7 @@ from harness import runner
 from harness.oracles import abnormal
 
 PROP = "C12"
-PLAN = {"quick": {"runs": 10000, "wall_s": 90}, "thorough": {"runs": 300000, "wall_s": 1200}}
+PLAN = {"quick": {"runs": 16000, "wall_s": 90}, "thorough": {"runs": 300000, "wall_s": 1200}}
 RULE = ("Each run: one thread-owning executor (retry, poll, throttle, timeout, thread pool, the shared f_timeout executor; map "
         "as a thread-less control) over a thread pool or sync base, a history of completed, failed, cancelled-in-flight and "
         "cancelled-while-queued futures, then one trigger at a drawn moment relative to the worker loop: shutdown(), dropping "
@@ -41,6 +41,7 @@ class Work(object):
         self.env.rec("call", self.s, self.n)
         if self.dur:
             self.env.sim.sleep(self.dur)
+        self.env.hit("work-exit-%s" % (self.s,))
         if self.n <= self.fails:
             raise RuntimeError("scripted failure %s/%d" % (self.s, self.n))
         r = Obj(("r", self.s))
@@ -63,7 +64,9 @@ def gen(rng, tier):
     jobs = []
     for s in range(n):
         jobs.append({"dur": rng.choice([0, 0.05, 0.2]), "fails": rng.choice([0, 0, 1, 5]),
-                     "cancel_at": rng.choice([None, None, 0, 0.02, 0.1])})
+                     # "work-exit": a second thread cancels just as the callable returns (around the
+                     # hand-over from the delegate's completion to the executor's own bookkeeping)
+                     "cancel_at": rng.choice([None, None, 0, 0.02, 0.1, "work-exit"])})
     if mode == "drop-keep-futures":
         # a failed future kept by the user pins, through its exception's traceback, the frames
         # it was raised under (plain Python semantics, not a reference kept by the library)
@@ -139,9 +142,18 @@ def run(spec, env):
         futs.append(f)
         del w, a, f
     # cancels at drawn times (cancel in flight / while queued / between retries)
-    plan = sorted((job["cancel_at"], s) for s, job in enumerate(spec["jobs"]) if job["cancel_at"] is not None)
+    plan = sorted((job["cancel_at"], s) for s, job in enumerate(spec["jobs"]) if isinstance(job["cancel_at"], (int, float)))
+    racers = []
+    for s, job in enumerate(spec["jobs"]):
+        if job["cancel_at"] == "work-exit":
+            def racer(s=s):
+                env.await_("work-exit-%d" % s, 5.0)
+                sim.yield_point("user")
+                if s < len(futs):
+                    env.rec("cancel", s, futs[s].cancel())
+            racers.append(env.client(racer, "client-x%d" % s))
     t = 0.0
-    ncancel = 0
+    ncancel = len(racers)
     for (at, s) in plan:
         if at > t:
             env.sleep(at - t)
@@ -160,6 +172,9 @@ def run(spec, env):
         del inp, w, a
         del inputs[:]
     env.objs["ncancel"] = ncancel
+    for ts in racers:
+        env.join(ts)
+    del racers[:]
 
     def wait_all():
         for f in futs:
